@@ -2,7 +2,8 @@
 import dns
 
 HOSTILE = [b"\xff", b"\xc0\xaf", b"\x00", b"a.b", b"\\", b"\\.", b"\xed\xa0\x80", b"\xf4\x90\x80\x80", b"caf\xc3\xa9", b"\xe2\x82",
-           b"x" * 63, b"=", b";", b"k=\xff", b"\xc4\xbb", b" ", b"\x7f", b"\xf0\x9f\x98\x80"]
+           b"x" * 63, b"=", b";", b"k=\xff", b"\xc4\xbb", b" ", b"\x7f", b"\xf0\x9f\x98\x80",
+           b'q="', b'k=""', b'"', b'="', b'k="v"', b"k='", b"a\\;b=c", b"p=C:\\;m=rw", b"k=\\", b"\\=", b"k=%", b"k=\x00"]
 
 
 def hostile_packet(rng, n_rr=4):
